@@ -120,7 +120,7 @@ def deferFollowsRLock : List Sync → Bool
 one set `{key k, chain k, current anchors}`; a failed one publishes nothing; and each role of the
 source's file map is present once. -/
 def fetchProbe : Bool :=
-  let s : RN := { now := 5, mode := .waiting, script := [.ok 0 10, .fail], dirOn := true, anchors := 3, nextTok := 4 }
+  let s : RN := { now := 5, mode := .waiting, script := [.ok 0 10, .fail {}], dirOn := true, anchors := 3, nextTok := 4 }
   let a := issue s false
   let s1 := (complete a).1
   let b := issue { s1 with mode := .waiting } false
